@@ -12,6 +12,7 @@ void logon() {
   enable_commands();
   add_action("cmd_any", "", 1);
   add_action("cmd_do", "do");
+  add_action("cmd_x", "x");
 #ifdef LOGON_SCRIPT
   run(LOGON_SCRIPT);
 #endif
